@@ -34,6 +34,30 @@ template <class T>
 struct is_move_construct_nothrow : std::integral_constant<bool, amc::is_trivially_relocatable<T>::value ||
                                                                     std::is_nothrow_move_constructible<T>::value> {};
 
+/// Destroys 'n' elements starting at 'first' when it goes out of scope, unless released before.
+/// Rolls back elements built in uninitialized memory when what follows throws, also in functions which are
+/// conditionally noexcept (a 'throw;' statement would be diagnosed there).
+template <class T, class SizeType>
+class DestroyGuard {
+ public:
+  DestroyGuard(T *first, SizeType n) noexcept : _first(first), _n(n) {}
+
+  DestroyGuard(const DestroyGuard &) = delete;
+  DestroyGuard &operator=(const DestroyGuard &) = delete;
+
+  ~DestroyGuard() {
+    if (_first != nullptr) {
+      amc::destroy_n(_first, _n);
+    }
+  }
+
+  void release() noexcept { _first = nullptr; }
+
+ private:
+  T *_first;
+  SizeType _n;
+};
+
 /// Shift 'n' elements starting at 'first' one slot to the right
 /// Requirements: n != 0, with uninitialized memory starting at 'first + n'
 /// Warning: no destroy is called for elements which has been moved from.
@@ -41,13 +65,10 @@ template <class T, class SizeType, typename std::enable_if<!amc::is_trivially_re
 inline void shift_right(T *first, SizeType n) noexcept(is_shift_nothrow<T>::value) {
   T *last = first + n;
   amc::construct_at(last, std::move(*(last - 1)));
-  try {
-    std::move_backward(first, last - 1, last);
-  } catch (...) {
-    // nobody knows about the element built beyond the end
-    amc::destroy_at(last);
-    throw;
-  }
+  // nobody knows about the element built beyond the end if a later move throws
+  DestroyGuard<T, SizeType> guard(last, 1);
+  std::move_backward(first, last - 1, last);
+  guard.release();
 }
 
 /// Specialization for trivially relocatable types. Just use memmove here.
@@ -64,13 +85,10 @@ void shift_right(T *first, SizeType n, SizeType count) noexcept(is_shift_nothrow
   if (count < n) {
     T *last = first + n;
     amc::uninitialized_move_n(last - count, count, last);  // move last 'count' elems to uninitialized storage
-    try {
-      std::move_backward(first, last - count, last);  // move remaining 'n - count' elems to initialized storage
-    } catch (...) {
-      // nobody knows about the elements built beyond the end
-      amc::destroy_n(last, count);
-      throw;
-    }
+    // nobody knows about the elements built beyond the end if a later move throws
+    DestroyGuard<T, SizeType> guard(last, count);
+    std::move_backward(first, last - count, last);  // move remaining 'n - count' elems to initialized storage
+    guard.release();
   } else {
     // no overlap, we shift all elements to uninitialized memory
     amc::uninitialized_move_n(first, n, first + count);
@@ -832,12 +850,19 @@ class SmallVectorBase : private Alloc {
   static inline void SwapDynamicBuffer(SmallVectorBase &vDynBuf,
                                        SmallVectorBase &vSmall) noexcept(is_swap_noexcept<T>::value) {
     T *oDynStorage = vDynBuf._storage.dyn();
-    try {
+    {
+      // the inline slots share their bytes with the pointer to the dynamic storage: put it back if a move throws
+      struct RestoreDynStorage {
+        ~RestoreDynStorage() {
+          if (dynStorage != nullptr) {
+            v._storage.setDyn(dynStorage);
+          }
+        }
+        SmallVectorBase &v;
+        T *dynStorage;
+      } restore{vDynBuf, oDynStorage};
       (void)amc::uninitialized_relocate_n(vSmall._storage.ptr(), vSmall._capa, vDynBuf._storage.ptr());
-    } catch (...) {
-      // the inline slots share their bytes with the pointer to the dynamic storage
-      vDynBuf._storage.setDyn(oDynStorage);
-      throw;
+      restore.dynStorage = nullptr;
     }
     vSmall._storage.setDyn(oDynStorage);
   }
